@@ -275,8 +275,14 @@ def sharded_rank_fn(spec, tmpdir=None):
                 sd = p.state_dict()
                 held = {n: (layer.a_factor.clone(), layer.g_factor.clone()) for n, layer in p._layers.values()
                         if rank == a.inv_worker(n, 'A') and layer.a_factor is not None}
-                files = sorted(os.listdir(tmpdir)) if (tmpdir and os.path.isdir(tmpdir)) else None
-                rec['sd'].append(dict(event=ei, state=_clone_sd(sd), held=held, files=files, steps=p.steps))
+                files = contents = None
+                if tmpdir:
+                    # saving to a directory has no trailing barrier; the harness joins all ranks (a resume is a new job)
+                    with simdist.harness():
+                        dist.barrier()
+                    files = sorted(os.listdir(tmpdir)) if os.path.isdir(tmpdir) else []
+                    contents = {f: torch.load(os.path.join(tmpdir, f)) for f in files}
+                rec['sd'].append(dict(event=ei, state=_clone_sd(sd), held=held, files=files, file_contents=contents, steps=p.steps))
                 if ev[0] == 'ckpt':
                     # a resume is a new job: all ranks join before anybody loads
                     with simdist.harness():
